@@ -122,6 +122,36 @@ func vfC14MergePartial(c int) {
 		}
 		vfAssert("partial-input-tile-covered", covered)
 	}
+	// no complete sibling quad is left unmerged above the requested zoom (a complete quad has 4 >= count members)
+	for t, v := range out {
+		if v && t.Z > min {
+			all := true
+			for _, s := range t.Siblings() {
+				if !out[s] {
+					all = false
+				}
+			}
+			vfAssert("partial-no-complete-sibling-quad-left", !all)
+		}
+	}
+	if count == 4 {
+		// merging only complete quads is MergeUp
+		set2 := make(maptile.Set)
+		for _, t := range in {
+			set2[t] = true
+		}
+		ref := MergeUp(set2, min)
+		for t, v := range ref {
+			if v {
+				vfAssert("partial-4-agrees-with-mergeup", out[t])
+			}
+		}
+		for t, v := range out {
+			if v {
+				vfAssert("partial-4-agrees-with-mergeup-back", ref[t])
+			}
+		}
+	}
 }
 
 // ---- line cover: latitudes from a catalogue (their mercator image is transcendental), longitudes
